@@ -1,7 +1,6 @@
 package ica
 
 import (
-	"fmt"
 	"testing"
 
 	"verif/harness/kit"
@@ -19,19 +18,20 @@ func TestC38(t *testing.T) {
 	c.Assume("'replaced only after it is CLOSED' is read on the controller chain's channel end (the anchors are the controller callbacks); host-side replacements are counted, not judged")
 	c.Assume("a new channel end on an owner's port over a connection whose active channel is not CLOSED counts as an attempt to replace the active channel")
 	c.Assume("only transactions are monitored (keeper-level legacy entry points of an authentication module are not driven)")
-	c.Floor("cases", 8)
-	c.Floor("ctrl_channel_ends_created", 40)
-	c.Floor("host_channel_ends_created", 30)
-	c.Floor("active_channel_replaced", 3)
-	c.Floor("reopenings_checked", 3)
-	c.Floor("channels_closed_by_timeout", 5)
-	c.Floor("ica_packets_sent", 40)
-	c.Floor("hostile_refused", 150)
-	c.Floor("open_uniqueness_checks", 100)
-	c.Floor("host_account_writes", 15)
-	c.Floor("controller_account_writes", 15)
+	c.Floor("cases", 9)
+	c.Floor("ctrl_channel_ends_created", 60)
+	c.Floor("host_channel_ends_created", 60)
+	c.Floor("active_channel_replaced", 7)
+	c.Floor("reopenings_checked", 7)
+	c.Floor("new_channel_after_active_closed", 5)
+	c.Floor("channels_closed_by_timeout", 10)
+	c.Floor("ica_packets_sent", 35)
+	c.Floor("hostile_refused", 90)
+	c.Floor("open_uniqueness_checks", 110)
+	c.Floor("host_account_writes", 30)
+	c.Floor("controller_account_writes", 30)
 
-	n := c.N(26, 40)
+	n := c.N(26, 100)
 	var e *Env
 	inWorld := 0
 	actorNo := 0
@@ -87,5 +87,4 @@ func TestC38(t *testing.T) {
 			c.Eval("")
 		}
 	}
-	_ = fmt.Sprint
 }
